@@ -466,6 +466,9 @@ func (x *Exec) modCallee(st *State, callee *ssa.Function, args []ssa.Value, reso
 	}
 	if !strings.HasPrefix(calleePkgPath(callee), modPath) {
 		if callee.Blocks == nil || true {
+			if pureStringsModel(key, callee.Signature, U) != nil {
+				return
+			}
 			limitf("no model for library function %s", key)
 		}
 	}
